@@ -25,3 +25,36 @@ Proof. apply (counted_during_any_history replace_names restore_names src_rep_nod
 
 Lemma src_roundtrip d0 : cls_same d0 (cls_restore restore_names (cls_replace replace_names (cls0 d0))).
 Proof. apply (replace_restore_roundtrip replace_names restore_names src_rep_nodup src_rep_in_res). Qed.
+
+From TxV Require Import Proofs.UserClsLogProofs.
+
+Lemma src_init_args (V : Type) tx_attrs (attrs : list (list N * V)) kv :
+  In kv (init_kwargs tx_attrs attrs) <-> In kv attrs /\ (In (fst kv) tx_attrs \/ fst kv = init_extra_key).
+Proof. rewrite src_parent_key. apply init_kwargs_spec. Qed.
+
+Lemma src_init_args_collected (V : Type) tx_attrs (vals : list (list N * V)) pos pos_end parent :
+  (forall kv, In kv vals -> In (fst kv) tx_attrs) ->
+  ~ In tx_pos_key tx_attrs -> ~ In tx_pos_end_key tx_attrs ->
+  init_kwargs tx_attrs (collected vals pos pos_end parent)
+  = vals ++ match parent with Some p => [(init_extra_key, p)] | None => [] end.
+Proof. rewrite src_parent_key. apply init_kwargs_collected. Qed.
+
+Lemma src_init_order d0 ops c :
+  In c (s_ctxs (src_run (init d0) ops)) -> trace_ok (c_trace c).
+Proof. apply init_order. Qed.
+
+Lemma src_failed_load_leaves_nothing d0 ops c rest :
+  s_ctxs (src_run (init d0) ops) = c :: rest ->
+  let s' := src_step (src_run (init d0) ops) Fail in
+  (forall x, In x (c_objs c) -> ~ In x (k_store (s_cls s'))) /\
+  (forall m, In m (c_mids c) -> ~ In m (s_repo s')) /\
+  s_ctxs s' = rest.
+Proof. apply (failed_load_leaves_nothing replace_names restore_names src_rep_nodup src_rep_in_res). Qed.
+
+(* after a history that ended (in particular after a failed load) the machine satisfies the
+   invariant again, so every statement above holds for whatever is loaded next *)
+Lemma src_idle_is_initial d0 ops :
+  s_ctxs (src_run (init d0) ops) = [] ->
+  cls_same d0 (s_cls (src_run (init d0) ops)) /\
+  forall ops2, s_ctxs (src_run (init d0) (ops ++ ops2)) = [] -> cls_same d0 (s_cls (src_run (init d0) (ops ++ ops2))).
+Proof. intro E. split; [apply src_restored; exact E | intros ops2; apply src_restored]. Qed.
